@@ -19,11 +19,36 @@
    Not a theorem (stated in DESIGN.md): productivity of specifications found by
    the pruning databases relies on the strategies being productive (pruning is
    a greatest fixed point); it is DECIDED per returned specification by the
-   proved-correct procedure above.  Genuineness of each rule (it is what the
-   strategy produces when re-applied) is decided per instance by the oracle. *)
+   proved-correct procedure above.
+
+   Added later (what turns the extracted dictionary into the returned object):
+   * SpecificationRuleExtractor._find_rule / rules() over the strategy table
+     (model Spec/FindRule.v, proofs Spec/FindRuleProofs.v):
+       C02_rules_from_table, C02_rules_from_table_all   genuineness AS A THEOREM: every rule handed out is
+           strategy(class) of a table entry, its equivalence form, or the reverse of a reversible entry, for the
+           strategy a store handed back for the entry's key;
+       C02_find_rule_total, C02_find_rule_total_generic  an entry the searcher stored is found again and the rule
+           found is filed under the entry's key;
+       C02_find_rule_outcomes  every failure characterised; C02_find_rule_forget_foreign_parent_refuted the recorded
+           limitation of RuleDBForgetStrategy; C02_extractor_hands_out_nonunary_equivalence_refuted the open finding
+           (findings/oneway_equivalence_with_empty_sibling.py) and C02_repair_converts the proposed repair.
+   * CombinatorialSpecification.__init__ (model Spec/Grouping.v, proofs Spec/GroupingProofs.v, GroupingInit.v,
+     GroupingProd.v, GroupingProdLink.v), for every input satisfying wf_input (Spec/GroupingWf.v: closed, one rule
+     per class, equivalence rules unary with a rule for their child, chains of hidden classes end, every class
+     reachable from the root, the root has a rule or is empty):
+       C02_grouping_never_asserts, C02_grouping_terminates, C02_grouping_result (closed = _is_valid_spec, root
+       kept, every class that is not hidden keeps its rule, path rules follow the chains, every hidden class lies
+       on a path), C02_hidden_on_two_paths ("exactly one path" is false in general), C02_group_ungroup_roundtrip,
+       C02_constructor_never_raises, C02_lazy_empty_sound, C02_set_subrules_only_adds_empty_rules,
+       C02_enforce_labels_partial, C02_grouping_preserves_productivity, C02_wf_decided.
+   Genuineness of the rule OBJECTS of word universes (constructors, shifts) stays a per-instance verdict of the
+   oracle; the theorems above are about the strategy-table level. *)
 From Coq Require Import ZArith List Bool.
 From CSS Require Import Base.Sx Forest.Spec Forest.Model Forest.Run Forest.Theorems
   Spec.Extractor Spec.ExtractorProofs Spec.ExtractorRun.
+From CSS Require ClassDB.Model ClassDB.Proofs Searcher.Model RuleDB.Model RuleDB.CdbFacts RuleDB.GetProofs RuleDB.AddProofs
+  Spec.FindRule Spec.FindRuleProofs Spec.FindRuleRepair Spec.Grouping Spec.GroupingWf Spec.GroupingFacts Spec.GroupingProofs
+  Spec.GroupingInit Spec.GroupingProd Spec.GroupingProdLink.
 Import ListNotations.
 
 (* AUDIT: the find_path contract used to be asked for EVERY pair of labels (forall l t); it is
@@ -160,6 +185,362 @@ Proof.
   split; intros P; apply D in P; simpl in P; [rewrite H2 in P|rewrite H3 in P]; discriminate.
 Qed.
 
+
+(* ====================================================================== _find_rule / rules() *)
+Module FR.
+Import ClassDB.Model ClassDB.Proofs Searcher.Model RuleDB.Model RuleDB.CdbFacts RuleDB.GetProofs RuleDB.AddProofs
+  Spec.FindRule Spec.FindRuleProofs Spec.FindRuleRepair.
+Open Scope Z_scope.
+
+(* every rule _find_rule hands out is strategy(class) of a table entry (apply_strategy: the strategy applies to the
+   class, or it is the empty rule of an empty class), in one of four forms - as it is, its equivalence form (then it
+   has exactly one non-empty child and the strategy can be an equivalence), the reverse of a REVERSIBLE unary rule,
+   the equivalence form of the reverse of a reversible rule - and the strategy is the one a store handed back for
+   the entry's key (reversed key for the reversed forms), applied to the class carrying the key's first label.
+   Any table, any two stores (dict of RuleDB, RecomputingDict of RuleDBForgetStrategy, anything else). *)
+Theorem C02_rules_from_table : forall (T : table) (cap : Z -> bool) (get_r get_e : lookup) d p cs d' f,
+  find_rule T cap get_r get_e d p cs = (d', inl f) ->
+  let r := form_rule f in
+  apply_strategy T (r_sid r) (r_parent r) = Some r /\
+  (exists k d0 d1 x,
+      (get_r d0 k = (d1, GOk (r_sid r) x) \/ get_e d0 k = (d1, GOk (r_sid r) x)) /\
+      snd (c_get_class d1 (fst k)) = RClass (r_parent r) /\
+      match f with
+      | FPlain _ | FEquiv _ => k = (p, cs)
+      | FRev _ | FEquivRev _ _ => exists c, cs = [c] /\ k = (c, [p])
+      end) /\
+  match f with
+  | FPlain _ => True
+  | FEquiv _ => plain_is_equivalence T cap r = true /\ length (kids_of T r) <> 1%nat
+  | FRev _ => r_reversible T r = true /\ exists c, kids_of T r = [c]
+  | FEquivRev _ i => r_reversible T r = true /\ plain_is_equivalence T cap r = true /\
+                     first_nonempty T (kids_of T r) = Some i /\ oracle T (r_parent r) = false
+  end.
+Proof. intros T cap get_r get_e. exact (find_rule_from_table T cap get_r get_e). Qed.
+
+(* ... hence every rule rules() yields, for the entry at the same position of the extractor's dictionary *)
+Theorem C02_rules_from_table_all : forall (T : table) (cap : Z -> bool) (get_r get_e : lookup) entries d d' fs e,
+  rules T cap get_r get_e false d entries = (d', fs, e) ->
+  Forall2 (fun k f => from_table T cap get_r get_e (fst k) (snd k) f) (firstn (length fs) entries) fs.
+Proof. intros T cap get_r get_e. exact (rules_from_table T cap get_r get_e). Qed.
+
+(* an entry that is stored - in rule_to_strategy, in eqv_rule_to_strategy, or reversed in eqv_rule_to_strategy -
+   with a strategy that reproduces the key is found, and the rule found is filed under the entry's key
+   (form_key = what RuleDBBase._clean_labels computes for the rule object) *)
+Theorem C02_find_rule_total_generic : forall (T : table) (cap : Z -> bool) (get_r get_e : lookup) d p cs d',
+  stored_entry T cap get_r get_e d p cs d' ->
+  exists f, find_rule T cap get_r get_e d p cs = (d', inl f) /\ form_key T d' f = Some (p, cs).
+Proof. intros T cap get_r get_e. exact (find_rule_total T cap get_r get_e). Qed.
+
+(* the default RuleDB after ANY sequence of ruledb.add calls made as the searcher makes them (add_pre: C04_recorded_
+   from_table), interleaved with any growth of the class database: every key of rule_to_strategy, every edge recorded
+   in the equivalence database (the steps of the explanation paths C02_closed speaks of: C06_path) in the direction it
+   was recorded and, for two-way edges, backwards, and every key of eqv_rule_to_strategy both ways is turned back into a
+   rule that is filed under exactly that entry.  Contracts: the emptiness cache is truthful (C04_empty_cache_
+   truthful), strategies in the equivalence store can be equivalences, two-way entries are reversible; the class a
+   reversed/equivalence entry ends in is not empty. *)
+Theorem C02_find_rule_total : forall (T : table) (cap : Z -> bool) a, add_hist T a ->
+  let d := b_cdb dstore a in
+  let fr := find_rule T cap (dict_lookup (b_r dstore a)) (dict_lookup (b_e dstore a)) d in
+  (forall c l, label_of Z.eqb (fun c : Z => c) d c = Some l -> empv T d c = oracle T c) ->
+  (forall k sid, d_get k (b_e dstore a) = Some sid -> cap sid = true) ->
+  (forall sid c e, entry_of T sid c = Some e -> e_two_way e = true -> e_reversible e = true) ->
+  (forall p cs sid, d_get (p, cs) (b_r dstore a) = Some sid ->
+     exists f, fr p cs = (d, inl f) /\ form_key T d f = Some (p, cs)) /\
+  (forall tw x y, In (EqEdge tw x y) (b_eq dstore a) ->
+     ((forall C, label_of Z.eqb (fun c : Z => c) d C = Some y -> oracle T C = false) ->
+      exists f, fr x [y] = (d, inl f) /\ form_key T d f = Some (x, [y])) /\
+     (tw = true -> (forall C, label_of Z.eqb (fun c : Z => c) d C = Some x -> oracle T C = false) ->
+      exists f', fr y [x] = (d, inl f') /\ form_key T d f' = Some (y, [x]))) /\
+  (forall p cs sid, d_get (p, cs) (b_e dstore a) = Some sid ->
+     exists c, cs = [c] /\
+     ((forall C, label_of Z.eqb (fun c : Z => c) d C = Some c -> oracle T C = false) ->
+      exists f, fr p [c] = (d, inl f) /\ form_key T d f = Some (p, [c])) /\
+     ((forall C, label_of Z.eqb (fun c : Z => c) d C = Some p -> oracle T C = false) ->
+      exists f', fr c [p] = (d, inl f') /\ form_key T d f' = Some (c, [p]))).
+Proof. intros T cap. exact (dict_find_rule_total T cap). Qed.
+
+(* exactly when it fails (any stores): see outcomes_spec in Spec/FindRuleProofs.v - ValueError iff the key is in
+   neither store in either direction; RuntimeError / class-database errors only when a lookup raises them; the
+   three asserts and StrategyDoesNotApply only when the strategy handed back does not reproduce the key *)
+Theorem C02_find_rule_outcomes : forall (T : table) (cap : Z -> bool) (get_r get_e : lookup) d p cs d' e,
+  find_rule T cap get_r get_e d p cs = (d', inr e) -> outcomes_spec T cap get_r get_e d p cs d' e.
+Proof. intros T cap get_r get_e. exact (find_rule_outcomes T cap get_r get_e). Qed.
+
+(* the recorded limitation: a rule with a foreign parent produced by a factory from a class outside the key is found
+   by RuleDB and makes RuleDBForgetStrategy raise RuntimeError (known finding C14 forget-foreign-parent-outside-key) *)
+Theorem C02_find_rule_forget_foreign_parent_refuted :
+  let T := C14.fp_table in
+  let cap := fun _ : Z => true in
+  let A := dict_add T (dict_init C14.fp_cdb) 1 [2] (mkR 0 1 RPlain) in
+  let B := rec_add T (rec_init C14.fp_cdb) 1 [2] (mkR 0 1 RPlain) in
+  d_get (1, [2]) (b_e dstore A) = Some 0 /\ r_mem (1, [2]) (b_e rstore_t B) = true /\
+  snd (find_rule T cap (rec_lookup T [1] false (b_r rstore_t B)) (rec_lookup T [1] true (b_e rstore_t B))
+         (b_cdb rstore_t B) 1 [2]) = inr ERecompute /\
+  snd (find_rule T cap (dict_lookup (b_r dstore A)) (dict_lookup (b_e dstore A)) (b_cdb dstore A) 1 [2])
+    = inl (FPlain (mkR 0 1 RPlain)).
+Proof. exact find_rule_forget_foreign_parent_refuted. Qed.
+
+(* the code as it is: an equivalence rule handed out with several children can only be an unconverted rule of
+   rule_to_strategy (the open finding); with the proposed repair (convert := true) every rule rules() yields whose
+   is_equivalence() is True has exactly one child - the hypothesis unary_eqv of the grouping theorems *)
+Theorem C02_equivalences_handed_out_unary : forall (T : table) (cap : Z -> bool) (get_r get_e : lookup) entries d d' fs e,
+  (rules T cap get_r get_e false d entries = (d', fs, e) ->
+   forall f, In f fs -> form_is_equivalence T cap f = true ->
+   (exists c, form_children T f = [c]) \/ (exists r, f = FPlain r /\ length (kids_of T r) <> 1%nat)) /\
+  (rules T cap get_r get_e true d entries = (d', fs, e) ->
+   forall f, In f fs -> form_is_equivalence T cap f = true -> exists c, form_children T f = [c]).
+Proof.
+  intros T cap get_r get_e entries d d' fs e. split.
+  - exact (unconverted_only_from_rule_store T cap get_r get_e entries d d' fs e).
+  - exact (repair_makes_equivalences_unary T cap get_r get_e entries d d' fs e).
+Qed.
+End FR.
+
+(* ====================================================================== CombinatorialSpecification.__init__ *)
+Module GR.
+Import Spec.Grouping Spec.GroupingWf Spec.GroupingFacts Spec.GroupingProofs Spec.GroupingInit Spec.GroupingProdLink.
+Close Scope Z_scope.
+
+(* no assert of _group_equiv_in_path / EquivalencePathRule.__init__ / get_rule fires, WHATEVER the fuel: the only
+   way not to get a result is to run out of fuel ... *)
+Theorem C02_grouping_never_asserts : forall is_empty root d0, wf_input is_empty root d0 ->
+  forall fuel, group_core is_empty fuel root d0 = XFuel \/
+               exists d1, group_core is_empty fuel root d0 = XOk d1 /\ grouped is_empty root d0 d1.
+Proof. exact group_core_never_raises. Qed.
+
+(* ... and the loop finishes within group_fuel turns (the fuel the executable model uses) *)
+Theorem C02_grouping_terminates : forall is_empty root d0, wf_input is_empty root d0 ->
+  forall fuel, group_fuel root d0 <= fuel ->
+  exists d1, group_core is_empty fuel root d0 = XOk d1 /\ grouped is_empty root d0 d1.
+Proof. exact group_core_ok. Qed.
+
+(* what `grouped` says, spelled out *)
+Theorem C02_grouping_result : forall is_empty root d0 d1, grouped is_empty root d0 d1 ->
+  let nh := not_hidden root d0 in
+  NoDup (map fst d1) /\
+  is_valid_spec is_empty root d1 = true /\                 (* closed: the assert after the loop holds *)
+  dmem root d1 = true /\                                    (* the root is kept *)
+  (forall c, mem c nh = false -> dget c d1 = None) /\       (* hidden classes lose their rule *)
+  (forall c r, dget c d0 = Some (GB r) -> b_eqv r = false -> dget c d1 = Some (GB r)) /\
+  (forall c r, dget c d0 = Some (GB r) -> b_eqv r = true -> mem c nh = true ->
+     exists rs y, dget c d1 = Some (GP r rs) /\ fchain root d0 (r :: rs) c y /\ mem y nh = true /\
+                  dmem y d1 = true) /\
+  (forall c g, dget c d1 = Some g ->
+     mem c nh = true /\
+     ((exists r0 rs, g = GP r0 rs /\ dget c d0 = Some (GB r0) /\ b_eqv r0 = true) \/
+      (exists r, g = GB r /\ b_eqv r = false /\ dget c d0 = Some (GB r)) \/
+      (dget c d0 = None /\ g = empty_rule c /\ is_empty c = true))) /\
+  (forall h g, dget h d0 = Some g -> mem h nh = false ->
+     exists c0 r0 rs, dget c0 d1 = Some (GP r0 rs) /\ In h (map b_cls rs)).
+Proof. intros is_empty root d0 d1 H. exact H. Qed.
+
+(* a path rule's members are the rules of d0 along a chain: each is the entry of its class and an equivalence, its
+   one child is the class of the next member - hidden - or, for the last member, the path's child, which is not
+   hidden; so children and composite of the path rule are those of the chain *)
+Theorem C02_path_members_form_a_chain : forall root d0 l c y, fchain root d0 l c y ->
+  (exists r l', l = r :: l' /\ b_cls r = c) /\
+  (forall m, In m l -> dget (b_cls m) d0 = Some (GB m) /\ b_eqv m = true) /\
+  (forall m, In m (tl l) -> mem (b_cls m) (not_hidden root d0) = false) /\
+  (forall m, In m l -> exists z, b_ch m = [z] /\
+      (z = y \/ (mem z (not_hidden root d0) = false /\ In z (map b_cls (tl l))))) /\
+  (forall r0 rs, l = r0 :: rs -> g_ch (GP r0 rs) = [y]).
+Proof.
+  intros root d0 l c y H. repeat split.
+  - exact (fchain_head root d0 l c y H).
+  - apply (fchain_mem root d0 l c y H); assumption.
+  - apply (fchain_mem root d0 l c y H); assumption.
+  - exact (fchain_tl_hidden root d0 l c y H).
+  - exact (fchain_next root d0 l c y H).
+  - intros r0 rs ->. exact (fchain_last root d0 rs r0 c y H).
+Qed.
+
+(* grouping, then _ungroup_equiv_path: every class has its original rule again; the only other entries are lazily
+   added empty rules of empty classes *)
+Theorem C02_group_ungroup_roundtrip : forall is_empty root d0, wf_input is_empty root d0 ->
+  forall fuel d1, group_core is_empty fuel root d0 = XOk d1 ->
+  (forall c g, dget c d0 = Some g -> dget c (ungroup d1) = Some g) /\
+  (forall c g, dget c (ungroup d1) = Some g ->
+     dget c d0 = Some g \/ (dget c d0 = None /\ g = empty_rule c /\ is_empty c = true)).
+Proof.
+  intros is_empty root d0 W fuel d1 H. apply (ungroup_grouped is_empty root d0 W).
+  destruct (group_core_never_raises is_empty root d0 W fuel) as [E|(d & E & G)]; congruence.
+Qed.
+
+(* the whole constructor with group_equiv=True never raises; its rules_dict is the grouped dictionary plus lazily
+   added empty rules, every child of every rule has a rule, labels are distinct and the root has one *)
+Theorem C02_constructor_never_raises : forall is_empty root rules,
+  let d0 := ungroup (rules_dict rules) in
+  wf_input is_empty root d0 ->
+  (forall e, spec_init is_empty root rules true <> XErr e) /\
+  (forall s, spec_init is_empty root rules true = XOk s ->
+     exists d1, grouped is_empty root d0 d1 /\ ext is_empty d1 (sp_rules s) /\ closed_strict (sp_rules s) /\
+                sp_root s = root /\ NoDup (sp_labels s) /\ In root (sp_labels s)).
+Proof. exact spec_init_ok. Qed.
+
+(* get_rule hands out the rule of the class; it adds a rule only for a class without one whose OWN is_empty() says
+   empty, and then the empty rule; it raises (assert) exactly for a non-empty class without a rule *)
+Theorem C02_lazy_empty_sound : forall is_empty d c,
+  match get_rule is_empty d c with
+  | XOk (d', g) =>
+      (dget c d = Some g /\ d' = d) \/
+      (dget c d = None /\ is_empty c = true /\ g = empty_rule c /\ d' = d ++ [(c, g)])
+  | XErr e => e = XAssertEmpty /\ dget c d = None /\ is_empty c = false
+  | XFuel => False
+  end.
+Proof. exact get_rule_spec. Qed.
+
+Theorem C02_set_subrules_only_adds_empty_rules : forall is_empty root d,
+  is_valid_spec is_empty root d = true ->
+  exists d', set_subrules is_empty d = XOk d' /\ ext is_empty d d' /\ closed_strict d'.
+Proof. exact set_subrules_ok. Qed.
+
+(* _enforce_labels: no KeyError when every child has a rule; labels are distinct and every class pushed gets one.
+   PARTIAL: that the traversal finishes within enforce_fuel turns is not proved (the model's XFuel answer has never
+   been observed; a too small fuel would show as a model/implementation mismatch). *)
+Theorem C02_enforce_labels_partial : forall fuel d, closed_strict d -> forall todo done labels,
+  (forall c, In c todo -> dmem c d = true) -> NoDup labels ->
+  match enforce fuel d todo done labels with
+  | XOk ls => NoDup ls /\ (forall c, In c labels -> In c ls) /\ (forall c, In c todo -> In c ls)
+  | XErr _ => False
+  | XFuel => True
+  end.
+Proof. exact enforce_ok. Qed.
+
+(* productivity is preserved: w.r.t. the forest keys of the grouped rules (a path rule counts with the SUM of its
+   members' shifts) a class that is not hidden - the root in particular - pumps iff it pumps w.r.t. the keys of
+   the ungrouped rules (d0 and the lazily added empty rules) *)
+Theorem C02_grouping_preserves_productivity : forall is_empty root d0 d1,
+  wf_input is_empty root d0 -> grouped is_empty root d0 d1 ->
+  (forall k r, In (k, GB r) d0 -> length (b_sh r) = length (b_ch r)) ->
+  (forall c, mem c (not_hidden root d0) = true ->
+     (pumps (R1 d1) c <-> pumps (R0 d0 d1) c)) /\
+  (pumps (R1 d1) root <-> pumps (R0 d0 d1) root) /\
+  (forall c v, derivable (R1 d1) c v -> derivable (R0 d0 d1) c v).
+Proof.
+  intros is_empty root d0 d1 W G S. split; [|split].
+  - exact (grouping_preserves_pumping is_empty root d0 d1 W G S).
+  - exact (grouping_preserves_root_pumping is_empty root d0 d1 W G S).
+  - exact (grouped_derivable_ungrouped is_empty root d0 d1 W G S).
+Qed.
+
+(* the hypotheses are decided by wf_inputb, which the check evaluates on every real rule set *)
+Theorem C02_wf_decided : forall is_empty root d, wf_inputb is_empty root d = true -> wf_input is_empty root d.
+Proof. exact wf_inputb_sound. Qed.
+
+(* ---------------------------------------------------------------- concrete inputs *)
+Definition ex_empty (c : nat) : bool := Nat.eqb c 9.
+Definition R (c : nat) (ch : list nat) (e : bool) (sh : list Z) (t : Z) : grule := GB (mkB c ch e sh t).
+(* 0 -> (1, 5, 9) ; 1 => 2 => 3 => 4 (equivalences, 2 and 3 hidden) ; 5 => 3 ; 4 -> () ; 9 is empty, without rule *)
+Definition ex_rules : list grule :=
+  [R 0 [1; 5; 9] false [0; 1; 0]%Z 0; R 1 [2] true [0]%Z 1; R 2 [3] true [0]%Z 2; R 3 [4] true [0]%Z 3;
+   R 5 [3] true [0]%Z 4; R 4 [] false [] 5].
+
+Example C02_nonvacuous_grouping :
+  wf_inputb ex_empty 0 (ungroup (rules_dict ex_rules)) = true /\
+  exists s, spec_init ex_empty 0 ex_rules true = XOk s /\
+    map fst (sp_rules s) = [0; 1; 5; 4; 9] /\
+    dget 1 (sp_rules s) = Some (GP (mkB 1 [2] true [0]%Z 1) [mkB 2 [3] true [0]%Z 2; mkB 3 [4] true [0]%Z 3]) /\
+    dget 9 (sp_rules s) = Some (empty_rule 9) /\ sp_labels s = [0; 1; 4; 5; 9].
+Proof. vm_compute. split; [reflexivity|]. eexists. repeat split; reflexivity. Qed.
+
+(* "every hidden class lies on exactly ONE path" is false in general: class 3 above is hidden and lies on the path
+   of 1 and on the path of 5 (two classes with equivalence rules into the same chain - what the extractor builds
+   when two explanation paths merge) *)
+Theorem C02_hidden_on_two_paths :
+  wf_inputb ex_empty 0 (ungroup (rules_dict ex_rules)) = true /\
+  exists d1 r1 rs1 r5 rs5,
+    group_core ex_empty (group_fuel 0 (rules_dict ex_rules)) 0 (rules_dict ex_rules) = XOk d1 /\
+    dget 1 d1 = Some (GP r1 rs1) /\ dget 5 d1 = Some (GP r5 rs5) /\
+    In 3 (map b_cls rs1) /\ In 3 (map b_cls rs5).
+Proof.
+  vm_compute. split; [reflexivity|]. do 5 eexists. repeat split; try reflexivity.
+  - right. left. reflexivity.
+  - left. reflexivity.
+Qed.
+
+(* ill-formed inputs on which the real constructor fails as the model does:
+   an equivalence rule with an empty sibling that was not converted (open finding, see below), and a cycle of hidden
+   classes (the loop never ends; only table universes with their arbitrary shifts produce it) *)
+Example C02_grouping_rejects_nonunary_equivalence :
+  spec_init ex_empty 0 [R 0 [1; 9] true [0; 0]%Z 0; R 1 [] false [] 1] true = XErr XAssertPathUnary /\
+  spec_init ex_empty 0 [R 0 [9; 1] true [0; 0]%Z 0; R 1 [2] true [0]%Z 1; R 2 [] false [] 2] true = XErr XAssertChain /\
+  wf_inputb ex_empty 0 (rules_dict [R 0 [1; 9] true [0; 0]%Z 0; R 1 [] false [] 1]) = false.
+Proof. vm_compute. repeat split; reflexivity. Qed.
+
+Example C02_grouping_hidden_cycle_runs_out_of_fuel :
+  spec_init ex_empty 0 [R 0 [1] true [1]%Z 0; R 1 [2] true [1]%Z 1; R 2 [1] true [1]%Z 2] true = XFuel /\
+  wf_inputb ex_empty 0 (rules_dict [R 0 [1] true [1]%Z 0; R 1 [2] true [1]%Z 1; R 2 [1] true [1]%Z 2]) = false.
+Proof. vm_compute. split; reflexivity. Qed.
+End GR.
+
+(* ====================================================================== the open finding, in the models *)
+Module FINDING.
+Import ClassDB.Model Searcher.Model RuleDB.Model Spec.FindRule Spec.Grouping.
+Open Scope Z_scope.
+
+(* strategy 0: possibly_empty, NOT two-way, can be an equivalence; class 0 -> (1, 2) with class 2 empty.
+   strategy 1: verification of class 1.  RuleDBBase.add files (0, (1,)) in rule_to_strategy. *)
+Definition f_table : table :=
+  mkT [0; 0; 1]
+      [ mkS 0 false true true true [(0, mkE [1; 2] false false [0; 0])] [];
+        mkS 2 false false false false [(1, mkE [] false false [])] [] ]
+      [1] [].
+Definition f_cdb : cdbT := mk [0; 1; 2] [(0, 0); (1, 1); (2, 2)] [None; None; None] 0.
+Definition f_db : dbst dstore :=
+  dict_add f_table (dict_add f_table (dict_init f_cdb) 0 [1; 2] (mkR 0 0 RPlain)) 1 [] (mkR 1 1 RVer).
+Definition f_rules (convert : bool) :=
+  rules f_table (fun _ => true) (dict_lookup (b_r dstore f_db)) (dict_lookup (b_e dstore f_db)) convert
+        (b_cdb dstore f_db) [(0, [1]); (1, [])].
+(* the rule objects as the constructor sees them (classes = their numbers) *)
+Definition grule_of (f : form) : grule :=
+  GB (mkB (Z.to_nat (form_parent f_table f)) (map Z.to_nat (form_children f_table f))
+          (form_is_equivalence f_table (fun _ => true) f) [] 0).
+Definition f_empty (c : nat) : bool := Nat.eqb c 2.
+
+(* rules() hands out strategy(class 0) AS IT IS: a rule with two children whose is_equivalence() is True; the
+   constructor's EquivalencePathRule asserts on it.  Replayed on the real code:
+   findings/oneway_equivalence_with_empty_sibling.py *)
+Theorem C02_extractor_hands_out_nonunary_equivalence_refuted :
+  d_keys (b_r dstore f_db) = [(0, [1]); (1, [])] /\ d_keys (b_e dstore f_db) = [] /\
+  exists fs, f_rules false = (b_cdb dstore f_db, fs, None) /\
+    fs = [FPlain (mkR 0 0 RPlain); FPlain (mkR 1 1 RVer)] /\
+    form_children f_table (FPlain (mkR 0 0 RPlain)) = [1; 2] /\
+    form_is_equivalence f_table (fun _ => true) (FPlain (mkR 0 0 RPlain)) = true /\
+    spec_init f_empty 0 (map grule_of fs) true = XErr XAssertPathUnary.
+Proof. vm_compute. split; [reflexivity|split; [reflexivity|]]. eexists. repeat split; reflexivity. Qed.
+
+(* with the proposed repair (rules() converts such a rule into its equivalence form, as ForestRuleExtractor.rules
+   does) the constructor accepts the rule set *)
+Theorem C02_repair_converts :
+  exists fs s, f_rules true = (b_cdb dstore f_db, fs, None) /\
+    fs = [FEquiv (mkR 0 0 RPlain); FPlain (mkR 1 1 RVer)] /\
+    spec_init f_empty 0 (map grule_of fs) true = XOk s /\ map fst (sp_rules s) = [0%nat; 1%nat].
+Proof. vm_compute. do 2 eexists. repeat split; reflexivity. Qed.
+End FINDING.
+
+Import FR GR FINDING.
 Print Assumptions C02_closed.
 Print Assumptions C02_one_rule_per_class.
 Print Assumptions C02_productive_decided.
+Print Assumptions C02_rules_from_table.
+Print Assumptions C02_rules_from_table_all.
+Print Assumptions C02_find_rule_total_generic.
+Print Assumptions C02_find_rule_total.
+Print Assumptions C02_find_rule_outcomes.
+Print Assumptions C02_find_rule_forget_foreign_parent_refuted.
+Print Assumptions C02_equivalences_handed_out_unary.
+Print Assumptions C02_grouping_never_asserts.
+Print Assumptions C02_grouping_terminates.
+Print Assumptions C02_grouping_result.
+Print Assumptions C02_path_members_form_a_chain.
+Print Assumptions C02_group_ungroup_roundtrip.
+Print Assumptions C02_constructor_never_raises.
+Print Assumptions C02_lazy_empty_sound.
+Print Assumptions C02_set_subrules_only_adds_empty_rules.
+Print Assumptions C02_enforce_labels_partial.
+Print Assumptions C02_grouping_preserves_productivity.
+Print Assumptions C02_wf_decided.
+Print Assumptions C02_hidden_on_two_paths.
+Print Assumptions C02_extractor_hands_out_nonunary_equivalence_refuted.
+Print Assumptions C02_repair_converts.
